@@ -14,6 +14,7 @@ import (
 
 	"verif/lib/ev"
 	"verif/lib/mc"
+	"verif/lib/refgeom"
 )
 
 const G = 4
@@ -148,6 +149,10 @@ func main() {
 			runs[c.Worker]++
 			out := simplify.DouglasPeucker(t).LineString(in.Clone())
 			what := fmt.Sprintf("DouglasPeucker(%v).LineString", t)
+			if o2 := simplify.DouglasPeucker(t).LineString(orb.LineString(refgeom.Spare(in))); !same(o2, out) {
+				c.Failf("layout-dependent", "%s gives %v for the line with spare capacity behind it and %v otherwise | %v", what, o2, out, in)
+				return
+			}
 			if !basic("dp-subsequence", out, what) {
 				return
 			}
@@ -203,6 +208,10 @@ func main() {
 			runs[c.Worker]++
 			out := simplify.VisvalingamThreshold(t).LineString(in.Clone())
 			what := fmt.Sprintf("VisvalingamThreshold(%v).LineString", t)
+			if o2 := simplify.VisvalingamThreshold(t).LineString(orb.LineString(refgeom.Spare(in))); !same(o2, out) {
+				c.Failf("layout-dependent", "%s gives %v for the line with spare capacity behind it and %v otherwise | %v", what, o2, out, in)
+				return
+			}
 			if !basic("vis-subsequence", out, what) {
 				return
 			}
